@@ -1,1 +1,352 @@
-//! wire lab
+//! Wire lab (DESIGN §3): a real sozu worker running in a thread of this process — exactly as the
+//! repository's e2e crate runs it — between scripted peers the harness owns. One lab per OS
+//! process (see engine::shard): sozu-lib keeps process-global state.
+
+pub mod h1;
+pub mod script;
+
+use std::{
+    net::{SocketAddr, TcpListener},
+    os::fd::IntoRawFd,
+    sync::atomic::{AtomicU16, Ordering},
+    thread::JoinHandle,
+    time::{Duration, Instant},
+};
+
+use mio::net::UnixStream;
+use sozu_command_lib::{
+    channel::Channel,
+    config::{ConfigBuilder, FileConfig, ListenerBuilder},
+    proto::command::{
+        ActivateListener, AddBackend, Cluster, ListenerType, LoadBalancingParams, PathRule, Request,
+        RequestHttpFrontend, RequestTcpFrontend, ResponseStatus, RulePosition, ServerConfig, WorkerRequest,
+        WorkerResponse, request::RequestType,
+    },
+    scm_socket::{Listeners, ScmSocket},
+    state::ConfigState,
+};
+use sozu_lib::server::Server;
+
+// ------------------------------------------------------------------ ports
+
+static PORT_CURSOR: AtomicU16 = AtomicU16::new(0);
+static PORT_BASE: AtomicU16 = AtomicU16::new(11000);
+const PORTS_PER_SHARD: u16 = 1500;
+
+/// Give this process (shard `i` of a sharded run) its own port range below the ephemeral range.
+pub fn init_ports(shard: usize) {
+    PORT_BASE.store(11000 + (shard as u16 % 14) * PORTS_PER_SHARD, Ordering::SeqCst);
+    // start at a pid-dependent offset so two consecutive runs do not fight over TIME_WAIT ports
+    PORT_CURSOR.store((std::process::id() % 700) as u16, Ordering::SeqCst);
+}
+
+/// A loopback address whose port is free right now (probed by binding), from this shard's range.
+pub fn free_addr() -> SocketAddr {
+    for _ in 0..PORTS_PER_SHARD as usize * 2 {
+        let off = PORT_CURSOR.fetch_add(1, Ordering::SeqCst) % PORTS_PER_SHARD;
+        let addr = SocketAddr::from(([127, 0, 0, 1], PORT_BASE.load(Ordering::SeqCst) + off));
+        if let Ok(l) = TcpListener::bind(addr) {
+            drop(l);
+            return addr;
+        }
+    }
+    panic!("harness: no free port in this shard's range");
+}
+
+/// Reserve a loopback address by binding it (returned listener keeps it).
+pub fn bound_listener() -> (SocketAddr, TcpListener) {
+    for _ in 0..PORTS_PER_SHARD as usize * 2 {
+        let off = PORT_CURSOR.fetch_add(1, Ordering::SeqCst) % PORTS_PER_SHARD;
+        let addr = SocketAddr::from(([127, 0, 0, 1], PORT_BASE.load(Ordering::SeqCst) + off));
+        if let Ok(l) = TcpListener::bind(addr) {
+            return (addr, l);
+        }
+    }
+    panic!("harness: no free port in this shard's range");
+}
+
+// ------------------------------------------------------------------ worker
+
+#[derive(Clone, Debug)]
+pub struct LabConfig {
+    pub max_connections: u64,
+    pub buffer_size: u64,
+    pub min_buffers: u64,
+    pub max_buffers: u64,
+    pub front_timeout: u32,
+    pub back_timeout: u32,
+    pub connect_timeout: u32,
+    pub request_timeout: u32,
+    pub zombie_check_interval: u32,
+    pub accept_queue_timeout: u32,
+    pub max_connections_per_ip: u64,
+    pub evict_on_queue_full: bool,
+}
+
+impl Default for LabConfig {
+    fn default() -> Self {
+        LabConfig {
+            max_connections: 500,
+            buffer_size: 16393,
+            min_buffers: 1,
+            max_buffers: 1000,
+            front_timeout: 4,
+            back_timeout: 3,
+            connect_timeout: 1,
+            request_timeout: 3,
+            zombie_check_interval: 5,
+            accept_queue_timeout: 5,
+            max_connections_per_ip: 0,
+            evict_on_queue_full: false,
+        }
+    }
+}
+
+pub fn server_config(lc: &LabConfig) -> ServerConfig {
+    let config = ConfigBuilder::new(FileConfig::default(), "").into_config().expect("default config");
+    let mut sc = ServerConfig::from(&config);
+    sc.max_connections = lc.max_connections;
+    sc.buffer_size = lc.buffer_size;
+    sc.min_buffers = lc.min_buffers;
+    sc.max_buffers = lc.max_buffers;
+    sc.front_timeout = lc.front_timeout;
+    sc.back_timeout = lc.back_timeout;
+    sc.connect_timeout = lc.connect_timeout;
+    sc.zombie_check_interval = lc.zombie_check_interval;
+    sc.accept_queue_timeout = lc.accept_queue_timeout;
+    sc.max_connections_per_ip = Some(lc.max_connections_per_ip);
+    sc.evict_on_queue_full = Some(lc.evict_on_queue_full);
+    sc.log_level = "error".into();
+    sc
+}
+
+pub struct LabWorker {
+    pub lab: LabConfig,
+    pub channel: Channel<WorkerRequest, WorkerResponse>,
+    pub scm_main: ScmSocket,
+    pub thread: Option<JoinHandle<()>>,
+    /// mirror of what was sent and accepted (the main process's view)
+    pub state: ConfigState,
+    next_id: u64,
+    pub name: String,
+    /// every response seen, in order of arrival
+    pub responses: Vec<WorkerResponse>,
+}
+
+#[derive(Debug)]
+pub enum LabError {
+    /// the worker did not answer within the deadline
+    Timeout(String),
+    /// the command channel failed
+    Channel(String),
+    /// the worker thread is gone (panicked or returned)
+    WorkerDied(String),
+}
+
+impl LabWorker {
+    pub fn start(name: &str, lab: LabConfig, listeners: Listeners, initial: &ConfigState) -> LabWorker {
+        let config = server_config(&lab);
+        let (scm_main, scm_worker) = UnixStream::pair().expect("scm pair");
+        let (cmd_main, cmd_worker) =
+            Channel::generate(config.command_buffer_size, config.max_command_buffer_size).expect("channel pair");
+        let scm_main = ScmSocket::new(scm_main.into_raw_fd()).expect("scm main");
+        let scm_worker = ScmSocket::new(scm_worker.into_raw_fd()).expect("scm worker");
+        scm_main.send_listeners(&listeners).expect("send listeners");
+        listeners.close();
+        let initial_state = initial.produce_initial_state();
+        let thread_config = config.clone();
+        let tname = name.to_string();
+        let thread = std::thread::Builder::new()
+            .name(format!("sozu-{name}"))
+            .spawn(move || {
+                if let Ok(level) = std::env::var("VP_LAB_LOG") {
+                    let _ = sozu_command_lib::logging::setup_default_logging(false, &level, &tname);
+                }
+                let mut server = Server::try_new_from_config(cmd_worker, scm_worker, thread_config, initial_state, false)
+                    .expect("could not create the sozu worker");
+                server.run();
+                let _ = tname;
+            })
+            .expect("spawn worker");
+        let mut channel = cmd_main;
+        channel.blocking().expect("blocking channel");
+        LabWorker {
+            lab,
+            channel,
+            scm_main,
+            thread: Some(thread),
+            state: initial.clone(),
+            next_id: 0,
+            name: name.to_string(),
+            responses: vec![],
+        }
+    }
+
+    pub fn alive(&self) -> bool {
+        self.thread.as_ref().map(|t| !t.is_finished()).unwrap_or(false)
+    }
+
+    pub fn fresh_id(&mut self) -> String {
+        self.next_id += 1;
+        format!("LAB-{}-{}", self.name, self.next_id)
+    }
+
+    /// send without waiting
+    pub fn send_with_id(&mut self, id: &str, request: Request) -> Result<(), LabError> {
+        self.channel
+            .write_message(&WorkerRequest { id: id.to_string(), content: request })
+            .map_err(|e| LabError::Channel(e.to_string()))
+    }
+
+    /// read the next response (any id)
+    pub fn read_response(&mut self, timeout: Duration) -> Result<WorkerResponse, LabError> {
+        match self.channel.read_message_blocking_timeout(Some(timeout)) {
+            Ok(r) => {
+                self.responses.push(r.clone());
+                Ok(r)
+            }
+            Err(e) => {
+                if !self.alive() {
+                    Err(LabError::WorkerDied(e.to_string()))
+                } else {
+                    Err(LabError::Timeout(e.to_string()))
+                }
+            }
+        }
+    }
+
+    /// send one request and wait for its final (Ok / Failure) answer
+    pub fn request(&mut self, request: RequestType) -> Result<WorkerResponse, LabError> {
+        let id = self.fresh_id();
+        let req: Request = request.into();
+        self.send_with_id(&id, req.clone())?;
+        let deadline = Instant::now() + Duration::from_secs(8);
+        loop {
+            let left = deadline.saturating_duration_since(Instant::now());
+            if left.is_zero() {
+                return Err(LabError::Timeout(format!("no final answer for {id}")));
+            }
+            let r = self.read_response(left)?;
+            if r.id == id && r.status != ResponseStatus::Processing as i32 {
+                if r.status == ResponseStatus::Ok as i32 {
+                    let _ = self.state.dispatch(&req);
+                }
+                return Ok(r);
+            }
+        }
+    }
+
+    /// request that must succeed (harness set-up): panics (→ inconclusive) otherwise
+    pub fn must(&mut self, request: RequestType) -> WorkerResponse {
+        let dbg = format!("{request:?}");
+        match self.request(request) {
+            Ok(r) if r.status == ResponseStatus::Ok as i32 => r,
+            Ok(r) => panic!("harness: set-up request failed: {} — {}", r.message, crate::engine::truncate(&dbg, 300)),
+            Err(e) => panic!("harness: set-up request got no answer: {e:?} — {}", crate::engine::truncate(&dbg, 300)),
+        }
+    }
+
+    /// Hard-stop the worker and join its thread. Ok(true) = exited cleanly, Ok(false) = still running
+    /// after the deadline, Err = the worker thread panicked (message).
+    pub fn stop(&mut self, deadline: Duration) -> Result<bool, String> {
+        let id = self.fresh_id();
+        let _ = self.send_with_id(&id, RequestType::HardStop(Default::default()).into());
+        let end = Instant::now() + deadline;
+        while Instant::now() < end {
+            if !self.alive() {
+                break;
+            }
+            let _ = self.channel.read_message_blocking_timeout(Some(Duration::from_millis(50)));
+        }
+        self.join()
+    }
+
+    pub fn join(&mut self) -> Result<bool, String> {
+        if self.alive() {
+            return Ok(false);
+        }
+        match self.thread.take() {
+            None => Ok(true),
+            Some(t) => match t.join() {
+                Ok(()) => Ok(true),
+                Err(_) => {
+                    let (loc, msg) = crate::engine::take_last_panic().unwrap_or(("?".into(), "?".into()));
+                    Err(format!("worker thread panicked at {loc}: {msg}"))
+                }
+            },
+        }
+    }
+
+    // ---------------------------------------------------------------- set-up helpers
+
+    pub fn add_http_listener(&mut self, addr: SocketAddr, tweak: impl FnOnce(&mut sozu_command_lib::proto::command::HttpListenerConfig)) {
+        let mut b = ListenerBuilder::new_http(addr.into());
+        b.with_front_timeout(Some(self.lab.front_timeout))
+            .with_back_timeout(Some(self.lab.back_timeout))
+            .with_connect_timeout(Some(self.lab.connect_timeout))
+            .with_request_timeout(Some(self.lab.request_timeout));
+        let mut l = b.to_http(None).expect("http listener config");
+        tweak(&mut l);
+        self.must(RequestType::AddHttpListener(l));
+        self.must(RequestType::ActivateListener(ActivateListener { address: addr.into(), proxy: ListenerType::Http.into(), from_scm: false }));
+    }
+
+    pub fn add_tcp_listener(&mut self, addr: SocketAddr, tweak: impl FnOnce(&mut sozu_command_lib::proto::command::TcpListenerConfig)) {
+        let mut b = ListenerBuilder::new_tcp(addr.into());
+        b.with_front_timeout(Some(self.lab.front_timeout))
+            .with_back_timeout(Some(self.lab.back_timeout))
+            .with_connect_timeout(Some(self.lab.connect_timeout));
+        let mut l = b.to_tcp(None).expect("tcp listener config");
+        tweak(&mut l);
+        self.must(RequestType::AddTcpListener(l));
+        self.must(RequestType::ActivateListener(ActivateListener { address: addr.into(), proxy: ListenerType::Tcp.into(), from_scm: false }));
+    }
+
+    pub fn add_cluster(&mut self, id: &str, tweak: impl FnOnce(&mut Cluster)) {
+        let mut c = Cluster { cluster_id: id.to_string(), sticky_session: false, https_redirect: false, ..Default::default() };
+        tweak(&mut c);
+        self.must(RequestType::AddCluster(c));
+    }
+
+    pub fn add_http_frontend(&mut self, cluster: &str, addr: SocketAddr, host: &str, path: &str) {
+        self.must(RequestType::AddHttpFrontend(RequestHttpFrontend {
+            cluster_id: Some(cluster.to_string()),
+            address: addr.into(),
+            hostname: host.to_string(),
+            path: PathRule::prefix(path.to_string()),
+            position: RulePosition::Tree.into(),
+            ..Default::default()
+        }));
+    }
+
+    pub fn add_tcp_frontend(&mut self, cluster: &str, addr: SocketAddr) {
+        self.must(RequestType::AddTcpFrontend(RequestTcpFrontend { cluster_id: cluster.to_string(), address: addr.into(), ..Default::default() }));
+    }
+
+    pub fn add_backend(&mut self, cluster: &str, id: &str, addr: SocketAddr) {
+        self.must(RequestType::AddBackend(AddBackend {
+            cluster_id: cluster.to_string(),
+            backend_id: id.to_string(),
+            address: addr.into(),
+            load_balancing_parameters: Some(LoadBalancingParams::default()),
+            sticky_id: None,
+            backup: None,
+        }));
+    }
+
+    pub fn remove_backend(&mut self, cluster: &str, id: &str, addr: SocketAddr) {
+        self.must(RequestType::RemoveBackend(sozu_command_lib::proto::command::RemoveBackend {
+            cluster_id: cluster.to_string(),
+            backend_id: id.to_string(),
+            address: addr.into(),
+        }));
+    }
+}
+
+impl Drop for LabWorker {
+    fn drop(&mut self) {
+        if self.alive() {
+            let _ = self.stop(Duration::from_secs(3));
+        }
+    }
+}
